@@ -295,7 +295,12 @@ pub fn apply_edit(cx: &mut Cx, nm: &mut Namer, file: &mut A2lFile) -> Option<Str
     }
     let mi = cx.tape.draw(file.project.module.len() as u64) as usize;
     let module = &mut file.project.module[mi];
-    match cx.tape.draw(13) {
+    match cx.tape.draw(14) {
+        13 => {
+            // merge_includes() on a model without includes: must not change anything that is written or compared
+            file.merge_includes();
+            Some("merge_includes() on the whole file".to_string())
+        }
         11 => {
             // reset_location() on one MODULE-level element: it is then written like a new element (at the end of
             // its module), with all its children
